@@ -47,8 +47,13 @@ class Interp:
         if not self.dry:
             if not z3.is_true(g):
                 f = st.frame.funcqual if getattr(st, "frame", None) else ""
-                name = f"{f}::{kind}::{clause}@{where}#{len(self.obligations)}"
-                self.obligations.append(Obligation(name, st.pc, goal, kind, where, func=self.verifying or f, clause=clause))
+                # a conjunction is discharged conjunct by conjunct (smaller, more stable queries)
+                parts = [p for p in goal.children() if not z3.is_true(z3.simplify(p))] if z3.is_expr(goal) and z3.is_and(goal) else [goal]
+                if not (1 < len(parts) <= 12):
+                    parts = [goal]
+                for pi, part in enumerate(parts):
+                    name = f"{f}::{kind}::{clause}@{where}#{len(self.obligations)}" + (f".{pi}" if len(parts) > 1 else "")
+                    self.obligations.append(Obligation(name, st.pc, part, kind, where, func=self.verifying or f, clause=clause))
             else:
                 f = st.frame.funcqual if getattr(st, "frame", None) else ""
                 o = Obligation(f"{f}::{kind}::{clause}@{where}#{len(self.obligations)}", [], z3.BoolVal(True), kind, where,
@@ -194,6 +199,22 @@ class Interp:
 
     def exec_stmt(self, node, st):
         c = self.specs.get(st.frame.funcqual) if self.specs is not None else None
+        if c is not None and not self.bounded and c.opts.get("ghosts"):
+            src0 = ast.unparse(node) if not isinstance(node, (ast.For, ast.While, ast.If, ast.With, ast.Try)) else ast.unparse(node).split("\n")[0]
+            for before, gname, gexpr in c.opts["ghosts"]:
+                if before in src0 and gname not in st.env:
+                    gnode = ast.parse(gexpr, mode="eval").body
+                    ast.copy_location(gnode, node)
+                    ast.fix_missing_locations(gnode)
+                    self.dry += 1
+                    try:
+                        outs = [(s_, v_) for s_, v_ in self.eval(gnode, st) if not isinstance(v_, Exc)]
+                    finally:
+                        self.dry -= 1
+                    if len(outs) != 1:
+                        raise EngineError(f"ghost assignment {gname} = {gexpr} does not evaluate to one value")
+                    st = outs[0][0]
+                    st.env[gname] = outs[0][1]
         if c is not None and not self.bounded and any(k[0] == "before" for k in c.hints):
             src = None
             for (kind, sub), names in c.hints.items():
